@@ -49,6 +49,7 @@ def build_rtf(seed: int, feature: str | None = None, twin: bool = False):
     n_img = 0
     brk_rng = random.Random(f"rtf-breaks:{seed}")
     fn_rng = random.Random(f"rtf-footnotes:{seed}")
+    esc_rng = random.Random(f"rtf-escapes:{seed}")
     pos = 0   # source page position (a blank page occupies a position)
     for p in range(n_pages):
         def w(cls, lo=1, hi=3):
@@ -74,6 +75,22 @@ def build_rtf(seed: int, feature: str | None = None, twin: bool = False):
             if fn_rng.random() < 0.08:
                 # half of a surrogate pair on its own (a cut-off emoji): whatever it becomes, the text must stay well-formed Unicode
                 parts.append(w("b", 1, 1)[0] + " " + fn_rng.choice(["\\u-8704?", "\\u-10179?", "\\u-8704?\\u-10179?", "\\u56832?"]) + " " + w("b", 1, 1)[0])
+            if esc_rng.random() < 0.2:
+                # a word of non-ASCII letters the way Word writes them: \'hh for code-page characters, \uN with a "?" or a \'hh fallback
+                # for anything else - in any mixture and directly adjacent
+                word = "".join(esc_rng.choice("\u00e9\u00fc\u00df\u00e4\u00f1\u20ac\u2013\u2026\u03b1\u03b2\u0416\u6f22") for _ in range(esc_rng.randint(2, 5)))
+                enc = []
+                for ch in word:
+                    try:
+                        hx = "\\'%02x" % ch.encode("cp1252")[0]
+                    except UnicodeEncodeError:
+                        hx = None
+                    n16 = ord(ch) if ord(ch) < 32768 else ord(ch) - 65536
+                    enc.append(esc_rng.choice(([hx, hx] if hx else []) + ["\\u%d?" % n16, "\\u%d%s" % (n16, hx or "\\'3f")]))
+                a, b2 = w("b", 1, 1)[0], w("b", 1, 1)[0]
+                parts.append(a + " " + "".join(enc) + " " + b2)
+                exp.between.append((a, b2, word))
+                exp.literals.append(word)
             if fn_rng.random() < 0.1:
                 # an embedded object whose data is given as raw bytes (\binN + N bytes) inside a skipped destination
                 raw = "OBJDATA" * fn_rng.randint(1, 4)
